@@ -12,7 +12,7 @@ std::unique_ptr<NodeResult> PointerDefineNode::evaluate(PSC::Context &ctx) {
     if (pointerType == PSC::DataType::NONE)
         throw PSC::TypeNotDefinedError(token, ctx, type.value);
 
-    if (ctx.isIdentifierType(name, false))
+    if (ctx.isIdentifierType(name))
         throw PSC::RedefinitionError(token, ctx, name.value);
 
     PSC::PointerTypeDefinition definition(name.value, pointerType);
